@@ -50,7 +50,7 @@ PROPS = {
     "C12": P_(["digraph", "dagproto", "values", "dagadmin", "graphbuild"], ["selection", "graph_build"]),
     "C13": P_(["digraph", "dagproto", "dagadmin", "graphbuild", "nodebuild"], ["selection_debug", "build_validation", "graph_build"]),
     "C14": P_(["scheduler", "values", "dagproto", "nodeexec"], ["profile"], dict(SW, fail=True)),
-    "C15": P_(["dagproto", "values", "digraph", "dagadmin", "subdag"], ["no_leak", "selection", "compose"]),
+    "C15": P_(["dagproto", "values", "digraph", "dagadmin", "subdag"], ["no_leak", "selection", "compose", "config"]),
     "C16": P_(["threads", "dagproto", "values", "nodebuild", "subdag"], ["threads"], claim="other",
               explanation="Mixed: the ownership guards (who may take the description branch, lock discipline of threadsafe_make_dag, frames of the run path) are proved; LazyExecNode.__call__ and real interleavings are covered by the bounded thread stand-in only."),
     "C17": P_(["scheduler", "values", "dagproto"], ["async", "programs_flat"], dict(SW)),
